@@ -794,15 +794,7 @@ impl S3 for FileSystem {
             return Err(s3_error!(AccessDenied));
         }
 
-        self.delete_upload_id(&upload_id).await?;
-
-        if let Ok(Some(metadata)) = self.load_metadata(&bucket, &key, Some(upload_id)).await {
-            self.save_metadata(&bucket, &key, &metadata, None).await?;
-            let _ = self.delete_metadata(&bucket, &key, Some(upload_id));
-        }
-
         let object_path = self.get_object_path(&bucket, &key)?;
-        let mut file_writer = self.prepare_file_write(&object_path).await?;
 
         let mut cnt: i32 = 0;
         let total_parts_cnt = multipart_upload
@@ -811,6 +803,8 @@ impl S3 for FileSystem {
             .map(|parts| i32::try_from(parts.len()).expect("total number of parts must be <= 10000."))
             .unwrap_or_default();
 
+        // validate the part list and the uploaded parts before anything is changed
+        let mut parts: Vec<(i32, PathBuf, u64)> = Vec::new();
         for part in multipart_upload.parts.into_iter().flatten() {
             let part_number = part
                 .part_number
@@ -821,18 +815,37 @@ impl S3 for FileSystem {
             }
 
             let part_path = self.resolve_upload_part_path(upload_id, part_number)?;
-
-            let mut reader = try_!(fs::File::open(&part_path).await);
-            let size = try_!(tokio::io::copy(&mut reader, &mut file_writer.writer()).await);
-
+            let Ok(part_meta) = fs::metadata(&part_path).await else {
+                return Err(s3_error!(InvalidPart, "part {part_number} has not been uploaded"));
+            };
+            parts.push((part_number, part_path, part_meta.len()));
+        }
+        for &(part_number, _, size) in &parts {
             if part_number != total_parts_cnt && size < 5 * 1024 * 1024 {
                 return Err(s3_error!(EntityTooSmall));
             }
+        }
+
+        let mut file_writer = self.prepare_file_write(&object_path).await?;
+        for (_, part_path, _) in &parts {
+            let mut reader = try_!(fs::File::open(part_path).await);
+            let size = try_!(tokio::io::copy(&mut reader, &mut file_writer.writer()).await);
 
             debug!(from = %part_path.display(), tmp = %file_writer.tmp_path().display(), to = %file_writer.dest_path().display(), ?size, "write file");
-            try_!(fs::remove_file(&part_path).await);
         }
         file_writer.done().await?;
+
+        // the object is in place: now its metadata; the parts and the upload are removed last
+        if let Ok(Some(metadata)) = self.load_metadata(&bucket, &key, Some(upload_id)).await {
+            self.save_metadata(&bucket, &key, &metadata, None).await?;
+            let _ = self.delete_metadata(&bucket, &key, Some(upload_id));
+        }
+
+        for (_, part_path, _) in &parts {
+            try_!(fs::remove_file(part_path).await);
+        }
+
+        self.delete_upload_id(&upload_id).await?;
 
         let file_size = try_!(fs::metadata(&object_path).await).len();
         let md5_sum = self.get_md5_sum(&bucket, &key).await?;
